@@ -14,15 +14,27 @@ PKG=$(echo "$CMD" | sed -n 's/.*-p \([a-z_]*\).*/\1/p')
 TEST=$(echo "$CMD" | sed -n 's/.*--test \([A-Za-z0-9_]*\).*/\1/p')
 CRATE=${PKG#swiftness_}
 DEMO=$(ls "$SRC"/*.rs | head -1)
+PPDEMO=""
+if echo "$CMD" | grep -q pp_demo; then
+  # parser / CLI demonstrations run in the helper crate pp_demo (offline vendor dir, transform.rs included by path)
+  PPDEMO=1; TEST=${TEST:-seeded_demo}
+  rm -rf pp_demo; cp -r /verif/scripts/pp_demo pp_demo; mkdir -p pp_demo/tests; cp "$DEMO" pp_demo/tests/$TEST.rs
+  cp /repo/Cargo.lock pp_demo/Cargo.lock
+  RUN="cargo test --offline --manifest-path pp_demo/Cargo.toml --test $TEST"
+  TESTDIR=pp_demo/tests
+else
 [ -n "$PKG" ] && [ -n "$TEST" ] || { echo "cannot parse demo command: $CMD"; exit 2; }
 mkdir -p crates/$CRATE/tests && cp "$DEMO" crates/$CRATE/tests/$TEST.rs
+for extra in "$SRC"/*.txt "$SRC"/*.json; do case "$(basename $extra)" in demo_cmd.txt|meta.json) ;; *) [ -f "$extra" ] && cp "$extra" crates/$CRATE/tests/ ;; esac; done
 RUN="cargo test -p $PKG --offline --test $TEST $(echo "$CMD" | grep -o -- '--no-default-features' || true) $(echo "$CMD" | grep -o -- '--features [A-Za-z0-9_,]*' || true)"
+TESTDIR=crates/$CRATE/tests
+fi
 echo "== demo on the unchanged tree: $RUN"
 if $RUN > /tmp/verify_seed_1.log 2>&1; then echo "   passes"; else echo "   FAILS on the unchanged tree"; tail -20 /tmp/verify_seed_1.log; exit 1; fi
 git apply "$SRC/patch.diff" || { echo "patch does not apply"; exit 1; }
 echo "== demo with the change"
 if $RUN > /tmp/verify_seed_2.log 2>&1; then echo "   still passes: not a demonstration"; exit 1; else grep -E "test result|panicked" /tmp/verify_seed_2.log | head -3; fi
-rm -f crates/$CRATE/tests/$TEST.rs; rmdir crates/$CRATE/tests 2>/dev/null
+rm -rf "$TESTDIR"; [ -n "$PPDEMO" ] && rm -rf pp_demo
 echo "== baseline suite with the change"
 cargo test --workspace --no-fail-fast --offline > /tmp/verify_seed_3.log 2>&1
 PASSED=$(grep -E "^test result: ok" /tmp/verify_seed_3.log | sed 's/.*ok\. \([0-9]*\) passed.*/\1/' | paste -sd+ | bc)
